@@ -46,9 +46,16 @@ Section ListOps.
     op_geta ev [a; k] st = match alookup key d with Some v => Ok v st2 | None => Er EEval st2 end.
   Proof. exact (geta_spec ev). Qed.
 End ListOps.
-Print Assumptions first_spec. Print Assumptions second_spec. Print Assumptions last_spec. Print Assumptions rest_spec.
-Print Assumptions length_spec. Print Assumptions zip_spec. Print Assumptions list_spec. Print Assumptions add_on_lists.
-Print Assumptions slice_spec. Print Assumptions geta_present_or_error.
+Print Assumptions first_spec.
+Print Assumptions second_spec.
+Print Assumptions last_spec.
+Print Assumptions rest_spec.
+Print Assumptions length_spec.
+Print Assumptions zip_spec.
+Print Assumptions list_spec.
+Print Assumptions add_on_lists.
+Print Assumptions slice_spec.
+Print Assumptions geta_present_or_error.
 
 Theorem slice_inside_bounds : forall (A : Type) (l : list A) i j, 0 <= i -> i <= j -> j <= zlen l ->
   py_slice_list l i j = firstn (Z.to_nat (j - i)) (skipn (Z.to_nat i) l).
